@@ -153,7 +153,8 @@ def jobs(tier, prop):
                 continue
             subs.append(make_sub('c01:' + '.'.join(seq), ['A'] + list(seq) + ['R']))
         picked = [['S', 'S', 'S', 'R'], ['S', 'F', 'S', 'T', 'T', 'T'], ['S', 'S', 'R', 'S', 'R'], ['S', 'Nx', 'R'],
-                  ['S', 'Nu', 'P', 'R', 'R'], ['S', 'P', 'A', 'S', 'P', 'A', 'U', 'S', 'R'], ['S', 'P', 'A', 'S', 'P', 'A', 'U', 'T', 'T']]
+                  ['S', 'Nu', 'P', 'R', 'R'], ['S', 'P', 'A', 'S', 'P', 'A', 'U', 'S', 'R'], ['S', 'P', 'A', 'S', 'P', 'A', 'U', 'T', 'T'],
+                  ['S', 'S', 'P', 'R'], ['S', 'S', 'P', 'U', 'R']]
         if tier == 'thorough':   # measured 160-400+ s of one core each
             picked += [['S', 'Ns', 'S', 'R', 'R'], ['S', 'Np', 'S', 'R', 'U', 'R'], ['Ns', 'Ns', 'R'], ['S', 'S', 'P', 'R', 'U', 'R'],
                        ['F', 'F', 'S', 'R'], ['S', 'S', 'S', 'S', 'R'], ['S', 'Ns', 'Ns', 'S', 'R'],
